@@ -154,7 +154,10 @@ def zone_value(avoid=frozenset()):
                                                        "é", "é", "def f():", "    return 1"]),
                  min_size=0, max_size=5).map("".join).map(lambda s: s.replace("\n", "").replace("\r", "")),
         st.sampled_from(["", " ", "\tindented with tab", "  two spaces", "trailing   ", "x = [1, 2]", "a -> b", "A::B",
-                         "===END===", "---", "``", "` `` `", "\"quoted\"", "back\\slash\\n", "é nfd", "#!/bin/sh"]),
+                         "===END===", "---", "``", "` `` `", "\"quoted\"", "back\\slash\\n", "é nfd", "#!/bin/sh",
+                         "FOO{bar}", "\\textbf{bold} and \\section{Results}", "say \"hi\" then name{q}",
+                         "// see http://x.y/z then K{v}", "K::NAME{q}", "\"\"\"triple\"\"\" A{b}", "two words here",
+                         "A::x -> y vs z"]),
     )
     def mk(lines, tag, n):
         fence = "`" * n
